@@ -2,7 +2,7 @@
    started in the order in which Enqueue accepted them; the channel never exceeds its capacity;
    with one worker (what the seeder uses per sender thread) tasks are executed in that order. *)
 From Coq Require Import NArith List Bool Lia Arith Permutation.
-From LV Require Import model.Workers.
+From LV Require Import model.WorkersFifo.
 Import ListNotations.
 
 (* order-preserving sub-sequence *)
